@@ -186,6 +186,54 @@ def run(repo, rep, tier):
         rep.check('patch', 'compare_version returns %d on every path when its own numeric version is %s (patch suffixes cannot override the numeric order)' % (want, rel), not wrong, cv,
                   'compare_version returns %s although its own numeric version is %s than the other%s' % (wrong[0][0] if wrong else '', rel, (' (on the path where %s)' % ' / '.join(wrong[0][1][:2])) if wrong and wrong[0][1] else ''),
                   stmt='compare_version orientation: %s' % rel, sample={'rule': 'patch', 'ordering': rel, 'paths': len(finals)})
+    # Timeframe._update, same ordering domain: the "from" slots (0, 2) keep the numerically newest first-appearance version, the "till" slots (1, 3)
+    # the numerically oldest removal version; an empty slot takes the incoming version
+    tu = repo.func('timeframe', 'Timeframe._update')
+    rep.saw(tu)
+    upd_loops = [n for n in tu.body if isinstance(n, ast.For) and 'ssh_versions' in unparse(n.iter) and 'items' in unparse(n.iter)]
+    if len(upd_loops) != 1:
+        raise AnalysisError('Timeframe._update: the loop over the collected versions was not found')
+
+    def tresolver(call):
+        f0 = getattr(call, '_func', None) or tu
+        for kind, g in sym.resolve_call(call, f0):
+            if g is not None and g._module.name in MODULES and not is_numeric_key(g) and g is not tu:
+                return g
+        return None
+    tbad = []
+    for pos in (0, 1, 2, 3):
+        for rel, kp, kn in (('older', 1, 2), ('equal', 1, 1), ('newer', 2, 1), ('empty', None, 1)):
+            prev = None if rel == 'empty' else VTok('prev')
+            new_v = VTok('new')
+
+            def thook(call, env, interp, kp=kp, kn=kn):
+                f0 = getattr(call, '_func', None) or tu
+                for kind, g in sym.resolve_call(call, f0):
+                    if g is not None and is_numeric_key(g) and call.args:
+                        try:
+                            v = interp.value(call.args[0], env)
+                        except Unknown:
+                            v = None
+                        if isinstance(v, VTok):
+                            return (True, (kp,) if v.name == 'prev' else (kn,))
+                        raise Unknown('numeric key of a value that is not one of the two versions')
+                return None
+            storage = {'P': [prev, prev, prev, prev]}
+            env = {'self': Opaque(), 'self.__storage': storage, 'pos': pos, 'ssh_versions.items()': [('P', new_v)], 'self[ssh_product][pos]': prev, 'self[ssh_product]': storage['P']}
+            try:
+                finals = Interp(call_hook=thook, resolver=tresolver).run([upd_loops[0]], env)
+            except Unknown as ex:
+                raise AnalysisError('Timeframe._update cannot be interpreted over key orderings: %s' % ex)
+            if len(finals) != 1 or finals[0].get('<forks>'):
+                raise AnalysisError('Timeframe._update: outcome depends on a condition the analysis does not model: %s' % [f.get('<forks>') for f in finals][:2])
+            rep.evals()
+            replaced = storage['P'][pos] is new_v
+            want = rel == 'empty' or (pos % 2 == 0 and rel == 'older') or (pos % 2 == 1 and rel == 'newer')
+            if replaced != want:
+                tbad.append((pos, rel, replaced))
+    rep.check('timeframe', 'Timeframe slots: "from" keeps the newest, "till" the oldest version, by numeric order (16 cases)', not tbad, upd_loops[0],
+              'Timeframe._update: slot %s holding a version that is %s than the incoming one is %s' % ((tbad[0][0], tbad[0][1].replace('older', 'numerically older').replace('newer', 'numerically newer'), 'replaced' if tbad[0][2] else 'kept') if tbad else ('', '', '')),
+              stmt='timeframe slot orientation', sample={'rule': 'timeframe', 'cases': 16})
     txt = unparse(cv)
     for need, what in (("re.match('^test\\\\d.*$', opatch)", 'Dropbear test-release normalisation'), ("re.match('^p(\\\\d).*', opatch)", 'OpenSSH pN normalisation'), ("spatch == '' and opatch == '1' or (spatch == '1' and opatch == '')", 'OpenSSH p1 == release')):
         rep.check('patch', 'product-specific patch rule present: %s' % what, need in txt, cv, 'patch rule missing: %s' % what)
